@@ -11,8 +11,9 @@
    Set+unlock.  The scan of the done bits in loadRange happens under the RLock and is one step.
 
    Index rows, the store oracle, sort.Search and the null chunk are shared with Model/ReadSeeker.v.
-   NewSparseFile is one atomic step ([restart]): a kill between its Truncate and the WriteState that ends the
-   path which did not load the saved state is not modelled (see props/C10.json level_note).  A state save file is
+   NewSparseFile is one atomic step ([restart], or [LFailedStart] when it returns an error): it replaces the saved
+   state BEFORE it resizes the cache file, so a start-up cut short in between leaves either nothing changed or a
+   blank state next to the old cache file, which the next start-up treats like [restart] does.  A state save file is
    always configured.  Between runs the cache file may be deleted or truncated/extended once ([cache_mode]), the
    state file may be unreadable ([m_state]); replacing the CONTENT of either file by an external party is not a
    label of this system.
@@ -105,7 +106,8 @@ Record rmode := mkmode { m_state : bool; m_cache : cache_mode; m_preload : bool 
 Inductive label :=
 | LThread (k : nat)
 | LSubmit (k : nat) (rq : request)
-| LRestart (m : rmode).
+| LRestart (m : rmode)
+| LFailedStart (m : rmode).   (* NewSparseFile returns an error AFTER it replaced the state and resized the cache file *)
 
 Record sstate := mkstate {
   s_done : list bool;               (* l.done *)
@@ -233,6 +235,14 @@ Section Loader.
   Definition step (s : sstate) (l : label) : option sstate :=
     match l with
     | LRestart m => Some (restart s m)
+    | LFailedStart m =>
+        (* A start-up that fails late: the state to pre-load from is read, the saved state is replaced, the cache file
+           is brought to full size, and only then pre-loading refuses the init state (wrong length): no worker is
+           started.  (If state and cache can be used as they are, NewSparseFile succeeds without looking at the init
+           file.)  What is left on disk is what [restart] without pre-load leaves; that the model lets the failed
+           incarnation serve requests although it does not exist only adds behaviours.  A start-up that fails EARLY
+           (the init file cannot be read) has changed nothing: it is not a step of this system. *)
+        Some (restart s (mkmode (m_state m) (m_cache m) false))
     | LThread k => if s_crashed s then None else tstep s k
     | LSubmit k rq =>
         if s_crashed s || negb (valid_request rq) then None
